@@ -12,6 +12,8 @@ import (
 	"time"
 
 	"github.com/spf13/afero"
+
+	"verifsim/simrt"
 )
 
 // Plan describes the faults of one file (keyed by path in Fs.Plans).
@@ -144,6 +146,9 @@ func (fl *File) Read(b []byte) (int, error) {
 	if fl.fs.isDead() {
 		return 0, errDead
 	}
+	// every disk call counts against the tick budget: code that reads (or rewinds) for ever without reaching a
+	// synchronisation point - also inside a library the instrumenter does not see - ends as a SPIN verdict
+	simrt.Tick()
 	p := fl.plan
 	if p == nil {
 		n, err := fl.File.Read(b)
@@ -187,6 +192,7 @@ func (fl *File) Read(b []byte) (int, error) {
 }
 
 func (fl *File) Seek(off int64, whence int) (int64, error) {
+	simrt.Tick()
 	if fl.fs.isDead() {
 		return 0, errDead
 	}
